@@ -3,9 +3,8 @@ let bytes_of_ocaml_string (s:string) : byte list =
   let acc = ref [] in
   for i = String.length s - 1 downto 0 do acc := byte_of_int (Char.code s.[i]) :: !acc done; !acc
 let int64_of_z (x:z) : int64 = Int64.of_string ("0u" ^ string_of_z x)
-(* the %.12g oracle: the C library's printf, reached through OCaml's Printf *)
-let fmt_g (bits:z) : byte list =
-  bytes_of_ocaml_string (Printf.sprintf "%.12g" (Int64.float_of_bits (int64_of_z bits)))
+(* the %.12g text: the MODEL's fmt_g12 (extracted; proved <= 19 characters and correctly rounded), no library oracle *)
+let fmt_g (bits:z) : byte list = fmt_g12 bits
 let ity_of = function
   | "s" -> TShort | "us" -> TUShort | "i" -> TInt | "u" -> TUInt | "l" -> TLong | "ul" -> TULong
   | "ll" -> TLongLong | "ull" -> TULongLong | t -> failwith ("bad type " ^ t)
@@ -26,6 +25,16 @@ let parse_item (w: string list) : item = match w with
       else
         let f = Int32.float_of_bits (Int32.of_string ("0u" ^ v)) in
         IDouble (z_of_string (Printf.sprintf "%Lu" (Int64.bits_of_float f)))
+  | ["FMI"; v] ->
+      (* Fmt("%07d", int): the text is snprintf's (an oracle, like the errno text); not a value of int: rejected *)
+      let x = (try Some (Int64.of_string v) with _ -> None) in
+      (match x with
+       | Some x when String.length v <= 11 && x >= -2147483648L && x <= 2147483647L ->
+           IFmt (bytes_of_ocaml_string (Printf.sprintf "%07Ld" x))
+       | _ -> IInt (TUInt, z_of_string "4294967296"))
+  | ["FMD"; v] ->
+      if String.length v > 20 || (String.length v = 20 && v > "18446744073709551615") then IInt (TUInt, z_of_string "4294967296")
+      else IFmt (bytes_of_ocaml_string (Printf.sprintf "%10.4f" (Int64.float_of_bits (int64_of_z (z_of_string v)))))
   | _ -> failwith ("bad item: " ^ String.concat " " w)
 let crc_update (c:int) (l: byte list) : int =
   List.fold_left (fun c x -> crc_tab.((c lxor (int_of_byte x)) land 255) lxor (c lsr 8)) c l
@@ -100,7 +109,16 @@ let () =
         if !fault then print_string "FAULT\n"
         else Printf.printf "ok n=%d h=%08x bad=-\n" !n (!crc lxor 0xffffffff)
     | "FM" :: _ -> print_string "ok\n"
-    | ["NOW"] -> print_string "ok\n"
+    | "SE" :: _ -> print_string "ok\n"
+    | ["NOW"] ->
+        (* the tid cache along the five lineages of the NOW op, with arbitrary distinct kernel tids: does each
+           logged line carry its own thread's id?  (interprets the regenerated afterFork / atfork registration) *)
+        let k n = z_of_int n in
+        let last_ok kk h = (match List.rev (lineage kk tidc0 h) with
+          | (kt, txt) :: _ -> if txt = tid_text kt then 1 else 0 | [] -> 0) in
+        Printf.printf "ok main=%d main2=%d thread=%d child=%d childthread=%d\n"
+          (last_ok (k 100) [HLog]) (last_ok (k 100) [HLog; HLog]) (last_ok (k 100) [HLog; HLog; HSpawn (k 101); HLog])
+          (last_ok (k 100) [HLog; HLog; HFork (k 200); HLog]) (last_ok (k 100) [HLog; HLog; HFork (k 200); HLog; HSpawn (k 201); HLog])
     | [("SI" | "IEC") as k; n] ->
         let v = z_of_string n in
         if Z.ltb v Z0 || not (Z.ltb v (z_of_string "9223372036854775808")) then print_string "rejected\n"
